@@ -142,3 +142,28 @@ Proof.
   - cbn. repeat split; auto. lra.
   - cbn [eval_ad cget]. unf. change (-1 - 1)%Z with (-2)%Z. rewrite pz_m1, pz_m2. field.
 Qed.
+
+(* Non-vacuity of the guarded domains: restricted functions have points in their domain,
+   and a tree using sparse product, slicing, l2_norm and maximum is smooth somewhere. *)
+Example C01_domains_inhabited :
+  fsmooth Farccosh 2 /\ fsmooth Farcsin (1 / 2) /\ fsmooth (Fcharacteristic (1 / 4)) 1 /\
+  fsmooth Ftan 0 /\
+  let e := Max (L2 2 (Slice [1; 0]%nat (Var 0)))
+               (MatMul [[(0%nat, 2); (1%nat, 3)]] (Fun Fabs (Var 0))) in
+  let x := (fun (k i : nat) => match i with O => 3 | _ => 4 end) : env (T:=R) in
+  smooth e x 0.
+Proof.
+  assert (E : sqrt (4 * 4 + (3 * 3 + 0)) = 5).
+  { replace (4 * 4 + (3 * 3 + 0)) with (5 * 5) by ring. apply sqrt_square. lra. }
+  cbv zeta. split; [|split; [|split; [|split]]].
+  - simpl. lra.
+  - simpl. lra.
+  - simpl. rewrite Rabs_right; lra.
+  - simpl. rewrite cos_0. lra.
+  - cbn [smooth Nat.eqb]. split; [split|split].
+    + intros j _. exact I.
+    + unfold l2_tol, l2_val, sumsq, block. simpl. rewrite E. lra.
+    + intros j Hj. simpl in Hj. destruct Hj as [<-|[<-|[]]]; simpl; split; try exact I; lra.
+    + unfold l2_val, sumsq, block, max_plain, lin_plain. simpl.
+      rewrite E, !np_abs_pos by lra. lra.
+Qed.
